@@ -137,11 +137,14 @@ func (db *DB) newMem(n int) (mem *memDB, err error) {
 	if db.journal == nil {
 		db.journal = journal.NewWriter(w)
 	} else {
+		// Reset has switched the journal to the new file whatever it
+		// returns; bailing out here would leave journalWriter and journalFd
+		// pointing at the old one, and Sync would sync the wrong file.
 		if err := db.journal.Reset(w); err != nil {
-			return nil, err
+			db.logf("journal@reset flushing @%d %q", db.journalFd.Num, err)
 		}
 		if err := db.journalWriter.Close(); err != nil {
-			return nil, err
+			db.logf("journal@close closing @%d %q", db.journalFd.Num, err)
 		}
 		db.frozenJournalFd = db.journalFd
 	}
